@@ -13,7 +13,7 @@ from pedal.source import verify  # noqa: E402
 from pedal.source.sections import (DEFAULT_SECTION_PATTERN, next_section, separate_into_sections,  # noqa: E402
                                    stop_any_sections, stop_sections)
 from pedal.tifa import tifa_analysis  # noqa: E402
-from pedal.sandbox.commands import run as sandbox_run  # noqa: E402
+from pedal.sandbox.commands import run as sandbox_run, call as sandbox_call  # noqa: E402
 from pedal.resolvers import simple  # noqa: E402
 
 THEOREMS = [
@@ -44,7 +44,11 @@ PATTERNS = [DEFAULT_SECTION_PATTERN, DEFAULT_SECTION_PATTERN, r'^(# SECTION \d+)
 MARKERS = {DEFAULT_SECTION_PATTERN: lambda k: "##### Part %d" % k, r'^(# SECTION \d+)$': lambda k: "# SECTION %d" % k,
            r'^(#---.*)$': lambda k: "#---" + "-" * k}
 BODY = ["a = 1", "print(a)", "", "b = a + 1", "# c", "   ", "a = a * 2", "if a:\n    b = 3", "##### Part", "#####  Part 2 ",
-        "x = '##### Part 9'", "\t", "c = [1,\n     2]"]
+        "x = '##### Part 9'", "\t", "c = [1,\n     2]",
+        # characters that str.splitlines() treats as line breaks but split("\n") does not (kept inside comments /
+        # string literals so the code still parses): FF, VT, FS/GS/RS, NEL, LS, PS
+        "# c\x0c", "# d\x0b e", "s = 'a\u2028b'", "t = 'p\u2029q'  # \x85", "# \x1c\x1d\x1e", "u = 1  # \x0c\x0c"]
+ODD_FILLERS = ["# c\x0c", "s = 'a\u2028b'", "# \x1c\x1d", "t = 'p\u2029q'", "# d\x0b e\x85"]
 
 
 def marks_for(text, pattern):
@@ -228,6 +232,8 @@ PLANTS = {
     "tifa": ["print(zz_undefined_name)"],
     "runtime": ["zz_q = 1 // 0"],
     "runtime_fn": ["def zz_f():", "    return 1 // 0", "zz_f()"],
+    # multi-step: the section only DEFINES the function; the instructor then calls it and it fails there
+    "runtime_call": ["def zz_g(d):", "    return 1 // d"],
 }
 
 
@@ -237,23 +243,28 @@ def gen_planted(rng):
     nsec = rng.randint(1, 4)
     chunks = []
     for k in range(nsec + 1):
-        body = []
+        # a body is a list of whole STATEMENTS (some span two lines); fillers are only ever put between statements
+        stmts = []
         for _ in range(rng.randint(0, 3)):
             # self-contained fillers: in independent mode a section cannot read earlier sections' names
-            body += rng.choice(["a = 1", "print(1)", "", "b = 2", "# c", "pass", "if 1:\n    c = 3"]).split("\n")
-        chunks.append(body)
+            stmts.append(rng.choice(["a = 1", "print(1)", "", "b = 2", "# c", "pass", "if 1:\n    c = 3"]))
+        if rng.random() < 0.35:
+            stmts.insert(rng.randint(0, len(stmts)), rng.choice(ODD_FILLERS))
+        chunks.append(stmts)
     chunks[0] = ["a = 1"] + chunks[0]
     k = rng.randint(1, nsec)
     kind = rng.choice(list(PLANTS))
-    pos = rng.randint(0, len(chunks[k]))
-    chunks[k][pos:pos] = PLANTS[kind]
+    spos = rng.randint(0, len(chunks[k]))                 # statement position of the plant inside section k
+    pos = sum(len(st.split("\n")) for st in chunks[k][:spos])   # ... as a line position
+    chunks[k][spos:spos] = ["\n".join(PLANTS[kind])]
+    chunks = [[ln for st in body for ln in st.split("\n")] for body in chunks]
     lines = []
     planted_line = None
     for j, body in enumerate(chunks):
         if j > 0:
             lines.append(MARKERS[pattern](j))
         if j == k:
-            planted_line = len(lines) + pos + 1 + (1 if kind == "runtime_fn" else 0)
+            planted_line = len(lines) + pos + 1 + (1 if kind in ("runtime_fn", "runtime_call") else 0)
         lines += body
     text = "\n".join(lines) + ("\n" if rng.random() < 0.8 else "")
     return {"text": text, "pattern": pattern, "k": k, "kind": kind, "line": planted_line,
@@ -271,6 +282,15 @@ def check_planted(p):
             next_section()
         kind = p["kind"]
         if kind == "syntax":
+            try:
+                import ast as _ast
+                _ast.parse(text)
+                p["_skip"] = "ill-formed:no-syntax-error"
+                return None
+            except SyntaxError as e:
+                if e.lineno != p["line"]:
+                    p["_skip"] = "ill-formed:first-error-elsewhere"
+                    return None
             verify()
             got = [f.location.line for f in MAIN_REPORT.feedback
                    if f.category == "syntax" and f.label in ("syntax_error", "indentation_error")]
@@ -290,6 +310,11 @@ def check_planted(p):
             if not verify():
                 return None
             sandbox_run()
+            if kind == "runtime_call":
+                if [f for f in MAIN_REPORT.feedback if f.category == "runtime"]:
+                    p["_skip"] = "section-failed-before-call"
+                    return None
+                sandbox_call("zz_g", 0)
             fbs = [f for f in MAIN_REPORT.feedback if f.category == "runtime"]
             if len(fbs) != 1:
                 return ({"tool": "runtime", "count": len(fbs)}, "%d runtime feedbacks" % len(fbs))
@@ -360,8 +385,10 @@ def search(rng, tier, broken, corr):
     failures, seen = [], set()
     info = {"rule": "real pedal vs the statement: sections re-join to the file; section k (or the prefix) is what the "
                     "tools see (positions taken from re.finditer); past-the-end gives not_enough_sections; a syntax "
-                    "error / undefined read / ZeroDivisionError (top level and inside a function) planted at a known "
-                    "whole-file line of a later section is reported there by verify, TIFA, the runtime feedback "
+                    "error / undefined read / ZeroDivisionError (top level, inside a function, and inside a function that "
+                    "the section only defines and the instructor then call()s) planted at a known "
+                    "whole-file line of a later section (earlier sections may contain FF/VT/FS/NEL/LS/PS characters, which "
+                    "str.splitlines counts as line breaks) is reported there by verify, TIFA, the runtime feedback "
                     "location and the traceback text; main code restored by stop_sections and by resolve()",
             "evaluations": 0, "distinct_nontrivial": 0, "samples": []}
     nt = set()
@@ -388,6 +415,9 @@ def search(rng, tier, broken, corr):
         info["evaluations"] += 1
         nt.add(p["text"])
         v = check_planted(p)
+        tag = "planted:%s:%s" % (p["kind"], p.pop("_skip", "checked"))
+        info.setdefault("planted_breakdown", {})
+        info["planted_breakdown"][tag] = info["planted_breakdown"].get(tag, 0) + 1
         if v is not None and json.dumps(v[0], sort_keys=True) not in seen:
             seen.add(json.dumps(v[0], sort_keys=True))
             failures.append(Failure(v[0], v[1], {"kind": "planted", "planted": p}))
